@@ -182,6 +182,14 @@ Fixpoint col_iter (cells : list (string * string)) (i : nat) (cur : option (list
       out ++ col_iter r (S i) cur2
   end.
 
+(* Series.set_data ends with trim(), and trimming a series without observations resets it,
+   description included; with no periods and no data set_data returns before that *)
+Definition kept_desc (periods : list Z) (s : series) (ds : string) : string :=
+  match periods with
+  | [] => ds
+  | _ => match s_start s with Some _ => ds | None => ""%string end
+  end.
+
 (* one block: periods from the non-empty date cells, one series per group of columns *)
 Definition import_block (name_row desc_row : row) (data_rows : grid) (acc : res databox) (b : Z * nat * nat)
   : res databox :=
@@ -193,21 +201,20 @@ Definition import_block (name_row desc_row : row) (data_rows : grid) (acc : res 
       | [] => Err 5                                             (* data_rows[0]: IndexError *)
       | r0 :: _ =>
           match parse_period f (cell_at r0 dc) with
-          | None => Err 9
+          | None => Err 3
           | Some _ =>
               let rows := filter (fun r => str_nonempty (cell_at r dc)) data_rows in
               match all_some (map (fun r => parse_period f (cell_at r dc)) rows) with
-              | None => Err 9
+              | None => Err 3
               | Some periods =>
                   let groups := col_iter (combine (slice name_row (S dc) ec ++ [""%string])
                                                   (slice desc_row (S dc) ec ++ [""%string])) O None in
                   Ok (fold_left
                         (fun d g =>
                            let '(cs, n, ds) := g in
-                           dset A d n
-                             (ISer A ds (set_data A f (empty_series A (length cs)) periods
-                                           (map (fun r => map (fun c => parse_val (cell_at r (S dc + c))) cs) rows)
-                                           None)))
+                           let s := set_data A f (empty_series A (length cs)) periods
+                                      (map (fun r => map (fun c => parse_val (cell_at r (S dc + c))) cs) rows) None in
+                           dset A d n (ISer A (kept_desc periods s ds) s))
                         groups db)
               end
           end
